@@ -991,7 +991,7 @@ class Polyhedron(Shape3D):
     def __repr__(self):
         return (
             f"coxeter.shapes.Polyhedron(vertices={self.vertices.tolist()}, "
-            f"faces={self.faces})"
+            f"faces={[[int(i) for i in face] for face in self.faces]})"
         )
 
     def _plato_primitive(self, backend):
